@@ -57,7 +57,20 @@ def run(ctx) -> None:
         if f.rule == "C06.scope":
             f.rule = "C14.residue"
     # per-item helpers that run on the worker's model: no effect may outlive the item (C13's scope analysis on them)
-    for mod, short in (("cobra.flux_analysis.loopless", "loopless_fva_iter"), ("cobra.flux_analysis.deletion", "_reaction_deletion"), ("cobra.flux_analysis.deletion", "_gene_deletion")):
+    check_item_helpers(ctx, "C14.residue", (("cobra.flux_analysis.loopless", "loopless_fva_iter"), ("cobra.flux_analysis.deletion", "_reaction_deletion"), ("cobra.flux_analysis.deletion", "_gene_deletion")))
+    _relabel(ctx, c06.check_tasks, "C06.tasks", "C14.tasks")
+    _relabel(ctx, c16.check_count, "C16.count", "C14.count")
+    fa.check_chunk(ctx, "C14.chunk", [fa.FVA, ("cobra.flux_analysis.deletion", "_multi_deletion")])
+    fa.check_seed(ctx, "C14.seed")
+    fa.check_shared_state(ctx, "C14.shared")
+    p = ctx.prog
+    fns = [p.func(*fa.FVA), p.func("cobra.flux_analysis.variability", "find_blocked_reactions"), p.func("cobra.flux_analysis.deletion", "_multi_deletion"), p.func("cobra.sampling.optgp", "OptGPSampler.__init__")]
+    check_none_defaults(ctx, "C14.nonedefault", fns)
+
+
+def check_item_helpers(ctx, rule: str, helpers) -> None:
+    """Per-item helpers that run on the worker's model: no effect may outlive the item (C13's scope analysis)."""
+    for mod, short in helpers:
         fn = ctx.prog.func(mod, short)
         bad = []
         for e in ctx.eff.summary(fn):
@@ -70,14 +83,6 @@ def run(ctx) -> None:
         if bad:
             e = bad[0]
             via = " <- ".join(f"{c[0].short}@L{getattr(c[1], 'lineno', 0)}" for c in e.chain[:5])
-            ctx.bad("C14.residue", e.fn, enclosing_stmt(e.node), f"(reached via {via or short}) {e.op} of {e.cell} made while handling one item of {short} is not undone before the next item: later items of the same worker see it, so results depend on request order, chunking and process count")
+            ctx.bad(rule, e.fn, enclosing_stmt(e.node), f"(reached via {via or short}) {e.op} of {e.cell} made while handling one item of {short} is not undone before the next item: later items of the same worker see it, so results depend on request order, chunking and process count")
         else:
-            ctx.ok("C14.residue", fn, None, "every effect on the worker's model is scoped to the item")
-    _relabel(ctx, c06.check_tasks, "C06.tasks", "C14.tasks")
-    _relabel(ctx, c16.check_count, "C16.count", "C14.count")
-    fa.check_chunk(ctx, "C14.chunk", [fa.FVA, ("cobra.flux_analysis.deletion", "_multi_deletion")])
-    fa.check_seed(ctx, "C14.seed")
-    fa.check_shared_state(ctx, "C14.shared")
-    p = ctx.prog
-    fns = [p.func(*fa.FVA), p.func("cobra.flux_analysis.variability", "find_blocked_reactions"), p.func("cobra.flux_analysis.deletion", "_multi_deletion"), p.func("cobra.sampling.optgp", "OptGPSampler.__init__")]
-    check_none_defaults(ctx, "C14.nonedefault", fns)
+            ctx.ok(rule, fn, None, "every effect on the worker's model is scoped to the item")
